@@ -4,6 +4,7 @@ Extracted (and tied to the configuration the theorems of Props/C26.v are about):
   redun/utils.py      merge_dicts         -> merge_variant  (AsShipped | Fixed), every statement recognised
   redun/task.py       Task.update_context -> update_plan    (the merge_dicts([...]) expression as a tree)
   redun/scheduler.py  Job.get_context     -> job_parent_first (argument order of the binary merge)
+  redun/scheduler.py  Job.clear           -> clear_keeps_parent (attributes reset when a job concludes)
   redun/scheduler.py  Scheduler.run       -> run_config_first (Execution(..., context=merge_dicts([self._context, context])))
 Pinned by shape (hand-modelled in Model/Context.v, tied by the correspondence run):
   redun/context.py    get_context_value, get_context
@@ -166,6 +167,57 @@ def tr_job_get_context(mod) -> bool:
     return binary_order(st.value, parent, over, "Job.get_context")
 
 
+CRITICAL_FIELDS = ("execution", "eval_options", "options", "task")   # Job.get_context needs them after clear()
+
+
+def tr_job_clear(mod) -> bool:
+    """Job.clear() (run by resolve()/reject()): which attributes it resets. It may drop the memoised
+    `_context` (get_context recomputes it) but then must keep `parent_job`.  Returns clear_keeps_parent."""
+    cls = None
+    for n in mod.body:
+        if isinstance(n, ast.ClassDef) and n.name == "Job":
+            cls = n
+    if cls is None:
+        fail("class Job not found")
+    fn = find_func(mod, "clear", cls="Job")
+    if [x.arg for x in fn.args.args] != ["self"] or fn.decorator_list:
+        fail("Job.clear: signature changed", fn)
+    resets = []
+    for st in body_nodoc(fn):
+        if isinstance(st, ast.Assign) and len(st.targets) == 1 and isinstance(st.targets[0], ast.Attribute) \
+                and src(st.targets[0].value) == "self":
+            name = st.targets[0].attr
+            if src(st) == "self._status = self.status":
+                continue
+            if not (isinstance(st.value, ast.Constant) and st.value.value is None):
+                fail(f"Job.clear: unrecognised assignment {src(st)!r}", st)
+            resets.append(name)
+        elif isinstance(st, ast.Expr) and isinstance(st.value, ast.Call) and isinstance(st.value.func, ast.Attribute) \
+                and st.value.func.attr == "clear" and not st.value.args and not st.value.keywords \
+                and isinstance(st.value.func.value, ast.Attribute) and src(st.value.func.value.value) == "self":
+            resets.append(st.value.func.value.attr)
+        else:
+            fail(f"Job.clear: unrecognised statement {src(st)!r}", st)
+    for f in CRITICAL_FIELDS:
+        if f in resets:
+            fail(f"Job.clear resets self.{f}, which Job.get_context needs to recompute a context")
+    # the parent link is set in __init__ only (and possibly reset in clear, which is what we extract)
+    for m in cls.body:
+        if isinstance(m, ast.FunctionDef) and m.name not in ("__init__", "clear"):
+            for n in ast.walk(m):
+                if isinstance(n, ast.Attribute) and n.attr == "parent_job" and isinstance(n.ctx, (ast.Store, ast.Del)) \
+                        and src(n.value) == "self":
+                    fail(f"Job.{m.name} rebinds self.parent_job", n)
+    # clear() is what resolve()/reject() call; nothing else in Job may drop the memoised context
+    for m in cls.body:
+        if isinstance(m, ast.FunctionDef) and m.name not in ("__init__", "clear", "get_context"):
+            for n in ast.walk(m):
+                if isinstance(n, ast.Attribute) and n.attr == "_context" and isinstance(n.ctx, (ast.Store, ast.Del)) \
+                        and src(n.value) == "self":
+                    fail(f"Job.{m.name} rebinds self._context", n)
+    return "parent_job" not in resets
+
+
 def tr_scheduler_run(mod) -> bool:
     cls = None
     for n in mod.body:
@@ -207,6 +259,7 @@ def translate(pins: dict | None = None):
     sched = load("redun/scheduler.py")
     job_first = tr_job_get_context(sched)
     run_first = tr_scheduler_run(sched)
+    keeps_parent = tr_job_clear(sched)
     ctxmod = load("redun/context.py")
     got = {name: pin(find_func(ctxmod, name)) for name in PINNED}
     if pins is not None:
@@ -216,11 +269,11 @@ def translate(pins: dict | None = None):
                      f"redun/context.py is no longer known to match")
     flat = "(UMerge [UPrev; UCtx; UKw])"
     nested = "(UMerge [(UMerge [UPrev; UCtx]); UKw])"
-    if variant == "AsShipped" and plan == flat and job_first and run_first:
+    if variant == "AsShipped" and plan == flat and job_first and run_first and keeps_parent:
         name = "shipped"
-    elif variant == "Fixed" and plan == flat and job_first and run_first:
+    elif variant == "Fixed" and plan == flat and job_first and run_first and keeps_parent:
         name = "fixed"
-    elif variant == "AsShipped" and plan == nested and job_first and run_first:
+    elif variant == "AsShipped" and plan == nested and job_first and run_first and keeps_parent:
         name = "fixed_uc"
     else:
         name = None   # the tie below fails: none of the configurations the theorems are about
@@ -234,7 +287,8 @@ def translate(pins: dict | None = None):
     v.append(f"  merge_variant := {variant};")
     v.append(f"  update_plan := {plan};")
     v.append(f"  job_parent_first := {b(job_first)};")
-    v.append(f"  run_config_first := {b(run_first)}")
+    v.append(f"  run_config_first := {b(run_first)};")
+    v.append(f"  clear_keeps_parent := {b(keeps_parent)}")
     v.append("|}.")
     v.append("(* The theorems of Props/C26.v are about [shipped] (refuted + partial), [fixed] and [fixed_uc] (hold). *)")
     v.append(f"Lemma C26_tie : gen = {name or 'shipped'}.")
